@@ -8,7 +8,8 @@ TripleSet(ts) == {<<ts[i][1], ts[i][2], ts[i][3]>> : i \in DOMAIN ts}
 Bad(e) == IF e.panic THEN {"panic"}
           ELSE CASE e.a = "reset" -> {}
                  [] e.a \in {"insert", "delete"} -> IF e.err THEN {"update_error"} ELSE {}
-                 [] e.a = "query" -> IF e.err THEN {"query_error"} ELSE IF Agrees(D, e.q, e.rows) THEN {} ELSE {"solutions"}
+                 [] e.a = "query" -> IF e.err THEN {"query_error"} ELSE IF Agrees(D, e.q, e.rows) THEN {}
+                                      ELSE IF HasValuesG(e.q.where) /\ Agrees(D, StripValues(e.q), e.rows) THEN {"values_ignored"} ELSE {"solutions"}
                  \* the whole data set read back through SELECT * must be D (after updates)
                  [] e.a = "dump" -> IF e.err THEN {"query_error"} ELSE IF TripleSet(e.rows) = D /\ Len(e.rows) = Cardinality(D) THEN {} ELSE {"data_set"}
 Init == l = 1 /\ D = {}
